@@ -79,6 +79,8 @@ FAMILIES = {
                     Outs=["OK"], MaxConn=2, MaxCalls=6, StalePick=0, Pre=7),
     "deep-fb3": fam(CfgMin=2, CfgMax=2, CfgWm=3, CfgFb=True, Keys=[1], AVs=[], CfgKinds=[], States=["READY", "TF"], Methods=["BIND", "BOUND", "UNBIND"],
                     Outs=["OK"], MaxConn=2, MaxCalls=7, StalePick=0, Pre=8),
+    "deep-fb4": fam(CfgMin=2, CfgMax=2, CfgWm=3, CfgFb=True, CfgUc=1, CfgUms=2, Keys=[1], AVs=[], CfgKinds=[], States=["READY", "TF"], Methods=["BOUND", "PLAIN"],
+                    Outs=["OK"], Dls=[0], Advs=[], MaxConn=4, MaxCalls=5, StalePick=0, Pre=9),
     "deep-refresh": fam(CfgMin=1, CfgMax=2, CfgWm=1, CfgUc=1, CfgUms=2, Keys=[1], AVs=[1, 2], States=["READY", "TF", "SHUTDOWN"], Methods=["PLAIN"],
                         Outs=["OK", "CDE"], Dls=[0, 1], Advs=[3], MaxConn=4, MaxCalls=3, StalePick=0, Pre=6),
     "deep-ref2": fam(CfgMin=1, CfgMax=1, CfgWm=9, CfgUc=2, CfgUms=2, Keys=[1], AVs=[], States=["READY"], Methods=["PLAIN"], Outs=["OK", "CDE"],
@@ -93,14 +95,14 @@ FAMILIES = {
 
 # which families decide which property (first ones are the quick tier)
 PROP_FAMILIES = {
-    "C01": ["deep-aff", "deep-affref", "deep-fb3", "deep-fb2", "affinity1", "refresh", "deep-refbound", "affinity", "fallbackrefresh", "spanner"],
+    "C01": ["deep-aff", "deep-affref", "deep-fb3", "deep-fb2", "deep-fb4", "affinity1", "refresh", "deep-refbound", "affinity", "fallbackrefresh", "spanner"],
     "C02": ["deep-load", "growth2", "deep-fb3", "affinity", "refresh", "deep-affref", "rr", "spanner"],
     "C03": ["growth", "growth2", "faults", "refresh", "deep-refresh", "spanner"],
     "C04": ["states", "refresh", "deep-refresh", "faults", "spanner"],
     "C05": ["faults", "deep-refresh", "faultsfb", "refreshfail", "deep-refbound", "spanner"],
     "C06": ["faultsfb", "faults", "rr", "refreshfail", "deep-rr", "spanner"],
     "C07": ["deep-ref2", "deep-refresh", "refresh2", "refresh", "refreshfail", "deep-affref", "rrrefresh", "spanner"],
-    "C08": ["deep-fb", "deep-fb3", "deep-fb2", "fallback", "fallbackrefresh", "faultsfb", "spanner"],
+    "C08": ["deep-fb", "deep-fb3", "deep-fb4", "deep-fb2", "fallback", "fallbackrefresh", "faultsfb", "spanner"],
     "C09": ["deep-rr", "rr", "rrrefresh", "spanner"],
     "C17": ["config0", "config1"],
     "C20": ["resolver", "deep-refresh", "refresh", "faults", "spanner"],
